@@ -520,7 +520,7 @@ func (s *stdioTransport) processMessage(ctx context.Context, line string, writer
 
 // writeResponse writes a response to the output writer.
 func (s *stdioTransport) writeResponse(response interface{}, writer io.Writer) error {
-	data, err := json.Marshal(response)
+	data, err := marshalJSONRPCMessage(response)
 	if err != nil {
 		return fmt.Errorf("error marshaling response: %w", err)
 	}
